@@ -39,16 +39,16 @@ func (Prop) Rule() string {
 	}
 	return fmt.Sprintf("E4 on %d operations on the real library with a scripted io.Reader. Full treatment: %s; API variants (content+fault+cross, no same-operation sequences): %s. ",
 		len(full)+len(light), strings.Join(full, ", "), strings.Join(light, ", ")) +
-		"CONTENT: every stream of <=3 32-byte blocks over {0,1,n-2,n-1,n,n+1,2^256-1,two mid-range values} plus their images under byte[1]^=0x42 (18 values per group order: SM2 n, SM9 N, NIST P-256 n for the legacy path), " +
+		"CONTENT: every stream of <=3 (thorough tier: <=4) 32-byte blocks over {0,1,n-2,n-1,n,n+1,2^256-1,two mid-range values} plus their images under byte[1]^=0x42 (18 values per group order: SM2 n, SM9 N, NIST P-256 n for the legacy path), " +
 		"each stream = rejected blocks followed by one acceptable block, followed by three fixed tail blocks; oracle: the complete output of the operation equals the output " +
 		"recomputed by the reference from exactly the first acceptable block (range [1,n-1], [1,n-2] for key generation; standard retry rules r=0, r+k=n, s=0, t=0, l=0 evaluated by the reference), " +
 		"for SM2 signatures additionally k=s(1+d)+rd; block-lane bytes consumed == 32*(rejections+1) (+16 for the IV of the SM9 block modes, which must be the next 16 stream bytes; " +
 		"16 bytes before the scalar for the enveloped-key SM4 key); exact sequence of read sizes; " +
 		"for ecdh/SM9-master key generation the key equals block XOR m where m has at most one non-zero byte (m is measured once per process from one run and then held fixed). " +
-		"SEQUENCES: the same operation twice on one reader for every pair of streams with <=1 rejection each (quick tier: second stream's last block from the nine base values), and every ordered pair of operations on one reader " +
+		"SEQUENCES: the same operation twice on one reader for every pair of streams with <=1 rejection each (quick tier: second stream's last block from the nine base values; thorough tier: second stream with <=2 rejections), and every ordered pair of operations on one reader " +
 		"(no rejection / one rejection each / rejection only in the second): the second operation must use the next acceptable block after the bytes the first one consumed. " +
 		"FAULTS: for every content stream and every read index k the fault-free run makes, answers {error, EOF, half block then EOF}: error returned, every other result nil/empty, no panic; " +
-		"answers {(0,nil) once, legal short read}: output and consumption identical to the fault-free run (quick tier: streams of <=2 blocks only); " +
+		"answers {(0,nil) once, legal short read}: output and consumption identical to the fault-free run (streams of <=2 blocks; thorough tier <=3 blocks); " +
 		"thorough tier adds two deviations for streams of <=2 blocks: a short answer at call c1 and any of the five answers at a later call c2 (error required iff call c2 was made and is a fault). " +
 		"distinct_nontrivial counts distinct (operation, stream-label-sequence) and (operation, fault kind, read index) classes."
 }
@@ -60,7 +60,7 @@ func (Prop) Assumptions() []string {
 		"SM9 master-key generation: the standard's range is [1,N-1], the library documents [1,N-2]; the value N-1 is treated as don't-care (accepted or rejected, but consumption must be consistent with the choice)",
 		"the XOR constant/position of ecdh and SM9 master key generation is not fixed by the property; it is measured (documented: 0x42 at byte 1) and required to be a single-byte constant that never changes",
 		"one-byte reads are served from a separate lane (randutil.MaybeReadByte coin flip); by code reading this is the only 1-byte read of the covered operations, at most one such read per operation is tolerated",
-		"fault answers are single deviations (one non-default answer per run); streams are bounded to 3 content blocks; uniformity itself is not measured, only exact use of the sampled block",
+		"fault answers are single deviations (thorough tier: two, the first one benign); streams are bounded to 3 (thorough: 4) content blocks, i.e. at most 2 (3) consecutive rejections; uniformity itself is not measured, only exact use of the sampled block",
 		"sm2.sign.legacy-p256 is skipped in c-purego: with -tags purego on amd64 the Go 1.23 standard library's elliptic.P256().Inverse panics ('nistec rejected normalized scalar') for every input, before any sampling question arises",
 		"legacy curves whose order is not a multiple of 8 bits (P-224, P-521: top-bit masking) are outside the property's 32-byte statement and are not covered; only NIST P-256 is run through the legacy path",
 		"dispatch tiers c-default and c-purego on amd64; arm64/ppc64le/s390x assembly is not covered",
@@ -627,7 +627,11 @@ func (Prop) Run(c *engine.Ctx) {
 				if !ok {
 					return
 				}
-				for _, s := range o.streamsFrom(first, mask, 3, false) {
+				maxLen := 3
+				if !quick {
+					maxLen = 4
+				}
+				for _, s := range o.streamsFrom(first, mask, maxLen, false) {
 					lab := s.label()
 					full := withTails(concat(o.pre, s.bytes()))
 					r := runSeq(t, []*opDef{o}, full, lab)
@@ -642,7 +646,7 @@ func (Prop) Run(c *engine.Ctx) {
 						t.Sample(map[string]any{"operation": o.name, "stream": lab, "accepted_block": r[0].idx, "bytes_consumed": r[0].end, "reads": r[0].calls})
 					}
 					// benign deviations cost a full run each: in the quick tier only for streams of <= 2 blocks
-					faults(t, o, full, lab, r[0], !quick || len(s.vals) <= 2)
+					faults(t, o, full, lab, r[0], len(s.vals) <= 2 || (!quick && len(s.vals) <= 3))
 					if !quick && len(s.vals) <= 2 {
 						faults2(t, o, full, lab, r[0])
 					}
@@ -669,7 +673,11 @@ func (Prop) Run(c *engine.Ctx) {
 				}
 				var second []stream
 				for _, f2 := range o.g.vals {
-					second = append(second, o.streamsFrom(f2, mask, 2, quick)...)
+					if quick {
+						second = append(second, o.streamsFrom(f2, mask, 2, true)...)
+					} else {
+						second = append(second, o.streamsFrom(f2, mask, 3, false)...)
+					}
 				}
 				for _, s1 := range o.streamsFrom(first, mask, 2, false) {
 					for _, s2 := range second {
